@@ -75,3 +75,13 @@ Definition pos_init (g : graph) (delay : node -> node -> xtime) (dur : node -> x
 
 Definition finite_dur (g : graph) (dur : node -> xtime) : bool :=
   forallb (fun u => match dur u with Some _ => true | None => false end) (gnodes g).
+
+(* a log is enabled from [st]: every infection hits a susceptible node, every recovery an
+   infectious one (a decidable checker) *)
+Fixpoint enabledb (st : node -> N) (evs : list event) : bool :=
+  match evs with
+  | [] => true
+  | e :: r =>
+    (if N.eqb (ev_s e) stI then N.eqb (st (ev_u e)) stS
+     else N.eqb (ev_s e) stR && N.eqb (st (ev_u e)) stI) && enabledb (apply_event st e) r
+  end.
